@@ -2496,6 +2496,14 @@ impl DnsIncoming {
         let mut name = "".to_string();
         let mut at_end = false;
 
+        // The run of labels being read starts at `seg_start` and must end at or
+        // before `seg_limit`. Every pointer must lead to before `seg_start`, and the
+        // labels found there must end before the run that pointed to them, so the
+        // runs never overlap: reading always terminates and a name cannot be longer
+        // than the message.
+        let mut seg_start = start_offset;
+        let mut seg_limit = data.len();
+
         // From RFC1035:
         // "...Domain names in messages are expressed in terms of a sequence of labels.
         // Each label is represented as a one octet length field followed by that
@@ -2536,11 +2544,13 @@ impl DnsIncoming {
                     offset += 1;
                     let ending = offset + length as usize;
 
-                    // Never read beyond the whole data length.
-                    if ending > data.len() {
+                    // Never read beyond the whole data length, nor into the
+                    // labels that led here via a pointer.
+                    if ending > seg_limit {
                         return Err(Error::Msg(format!(
-                            "read_name: ending {} exceeds data length {}",
+                            "read_name: ending {} exceeds limit {} (data length {})",
                             ending,
+                            seg_limit,
                             data.len()
                         )));
                     }
@@ -2561,13 +2571,15 @@ impl DnsIncoming {
                         )));
                     }
                     let pointer = (u16_from_be_slice(slice) ^ 0xC000) as usize;
-                    if pointer >= start_offset {
+                    if pointer >= seg_start {
                         // Error: could trigger an infinite loop.
                         return Err(Error::Msg(format!(
                             "Invalid name compression: pointer {} must be less than the start offset {}",
-                            &pointer, &start_offset
+                            &pointer, &seg_start
                         )));
                     }
+                    seg_limit = seg_start;
+                    seg_start = pointer;
 
                     // A pointer marks the end of a domain name.
                     if !at_end {
